@@ -3,7 +3,7 @@
 import os, json, glob
 root = os.path.join(os.path.dirname(os.path.dirname(os.path.abspath(__file__))), 'seeded')
 rows = []
-for d in sorted(glob.glob(os.path.join(root, '*-m*'))):
+for d in sorted(glob.glob(os.path.join(root, 'C*-*m[0-9]'))):
     n = os.path.basename(d)
     def load(f):
         try:
